@@ -733,6 +733,13 @@ void run_c10(Judge& j, uint64_t n) {
         // outcome sequence per TCP attempt, then good
         int bad = (int)rng.below(7);
         for (int b = 0; b < bad; ++b) sc.attempts.push_back(rng.chance(1, 4) ? AttemptPlan{} : bad_attempt(rng));
+        // CONNACKs that are malformed although they have a plausible length, reason code 0 and a parsable property section
+        if (rng.chance(1, 4)) {
+            AttemptPlan m; m.hs = AttemptPlan::hs_custom;
+            m.custom_bytes = rng.pick(std::vector<std::string>{std::string("\x20\x03\x02\x00\x00", 5), std::string("\x2F\x03\x00\x00\x00", 5), std::string("\x20\x05\x00\x00\x00\xAA\xBB", 7),
+                                                               std::string("\x21\x03\x00\x00\x00", 5), std::string("\x20\x03\x80\x00\x00", 5), std::string("\x20\x04\x01\x00\x00\x00", 6)});
+            sc.attempts.insert(sc.attempts.begin() + (int)rng.below((int)sc.attempts.size() + 1), m);
+        }
         // a host list that only contains unresolvable names never connects: that is fine, the rotation is still judged
         Action r; r.kind = Action::run; sc.script.push_back(r);
         Action p; p.kind = Action::publish; p.at = 10 * MS; p.qos = 1; p.topic = "c"; p.payload = "x"; sc.script.push_back(p);
@@ -742,6 +749,16 @@ void run_c10(Judge& j, uint64_t n) {
         // the configuration belongs to the client, not to one run: stop (cancel / async_disconnect) and run again
         if (rng.chance(1, 3)) {
             Action st; st.kind = rng.chance(1, 2) ? Action::cancel : Action::disconnect; st.at = (vt)rng.range(40 * SEC, 60 * SEC); sc.script.push_back(st);
+            if (rng.chance(1, 2)) {
+                // ... and may be changed between two runs: what is given last is what counts, field by field
+                sc.has_ccfg2 = true; sc.ccfg2 = c;
+                sc.ccfg2.client_id = rng.chance(1, 4) ? "" : g.text(rng.range(1, 23));
+                sc.ccfg2.username = rng.chance(1, 2) ? "" : g.text(rng.range(1, 20));
+                sc.ccfg2.password = rng.chance(1, 2) ? "" : g.text(rng.range(1, 20));
+                sc.ccfg2.keep_alive = rng.pick(std::vector<uint16_t>{0, 5, 60, 1200});
+                { ref::Props cp = g.props(ref::CONNECT, -1, {0x15, 0x16, 0x27}); sc.ccfg2.connect_props = {}; l2r::from_ref(cp, sc.ccfg2.connect_props); }
+                Action rc; rc.kind = Action::reconfigure; rc.at = st.at + 6 * SEC; sc.script.push_back(rc);
+            }
             Action r2; r2.kind = Action::run; r2.at = st.at + 7 * SEC; sc.script.push_back(r2);
             Action p2; p2.kind = Action::publish; p2.at = r2.at + 10 * MS; p2.qos = 1; p2.topic = "c2"; p2.payload = "x"; sc.script.push_back(p2);
             sc.end = r2.at + 60 * SEC;
